@@ -108,6 +108,11 @@ func (s *keySys) Apply(ev int) (string, string, string) {
 		vtime.Add(e.D)
 		return "tick", "", ""
 	}
+	if e.Kind == "reload" {
+		// what any saved configuration edit does to the caches: the same cache configuration applied again
+		cache.ResetDispatchers(s.cfg.Caches)
+		return "reload", "", ""
+	}
 	if e.Kind == "restart" {
 		freshCaches(s.cfg)
 		if s.store == "" {
